@@ -32,8 +32,8 @@ RULE = ("cross_val_score: random scattered datasets (14..34 points, scalar or 2-
         "score/score_estimator on held-out rows incl. constant data. train_test_split: arrays of distinct values (1-D and 2-D shaped), "
         "with/without weights, 1..3 components, random and blocked (spacing/shape): complementary, aligned, whole blocks. SplineCV: grids with a "
         "unique best, duplicate candidates and exact ties between different candidates (mindist below every distance), weights, scorers, "
-        "delayed and the deprecated client= path (stand-in client, non-default scorers, data with outliers): chosen parameters = first arg-max of scores_, scores_ = means of independent cross_val_score runs, prediction bit-identical "
-        "to Spline(best) fitted to all rows. Non-trivial = imperfect fit (score != 1/0); distinct = distinct configuration and data seed.")
+        "delayed and the deprecated client= path (stand-in client, non-default scorers, data with outliers), every SplineCV built with the constructor options that must reach both the candidates and the final model (force_coords = None or a coarse grid of fewer forces than data, given 2-D or raveled; engine auto/numpy; cv; scoring; delayed): chosen parameters = first arg-max of scores_, scores_ = means of independent cross_val_score runs, prediction and force_ bit-identical "
+        "to an independently built Spline(best, same force_coords and engine) fitted to all rows (serial and delayed), force_/force_coords_ of the expected sizes, final Spline object carrying the requested options. Non-trivial = imperfect fit (score != 1/0); distinct = distinct configuration and data seed.")
 ASSUMPTIONS = [
     "the individual estimators (Trend, Spline, KNeighbors, Chain, Vector) are oracles: fit/predict of an independent sklearn.base.clone on the training rows is taken as the reference (their own correctness is C01-C03, C06, C09, C10)",
     "the cross-validators are oracles: the (train, test) index lists are obtained by calling cv.split again with the same random_state (their own properties are C11)",
@@ -538,7 +538,7 @@ def splinecv_case(rnd, vd, kind):
         # outliers make R2, MSE and MAE rank the candidates differently
         data = data.copy()
         data[::5] += np.round(rs.normal(0, 6, data[::5].size) * 256) / 256
-    if kind in ("splinecv-unique", "splinecv-client"):
+    if kind in ("splinecv-unique", "splinecv-client", "splinecv-options"):
         mindists = rnd.choice([[0.5], [1e-5, 0.5], [0.1, 1.0]])
         dampings = rnd.sample([1e-4, 1e-2, 1.0, 100.0], rnd.randint(2, 3))
     elif kind == "splinecv-duplicates":
@@ -560,23 +560,57 @@ def splinecv_case(rnd, vd, kind):
     cvf = rnd.choice([lambda: None, lambda: KFold(n_splits=3, shuffle=True, random_state=seed),
                       lambda: ShuffleSplit(n_splits=3, test_size=0.3, random_state=seed)])
     q = (rs.uniform(0, 6, 5), rs.uniform(-3, 3, 5))
+    # constructor options that must reach BOTH the cross-validated candidates and the final model
+    fshape = rnd.choice([None, None, (2, 3), (3, 3), (3, 4), (2, 5)])
+    if kind == "splinecv-options" and fshape is None:
+        fshape = rnd.choice([(2, 3), (3, 3), (3, 4)])
+    if fshape is None:
+        force_coords, nforce = None, n
+    else:
+        # a coarse grid of forces (fewer than data points, not on top of them), handed over as 2-D arrays or raveled
+        fe, fn = np.meshgrid(np.linspace(0.3, 5.7, fshape[1]), np.linspace(-2.7, 2.7, fshape[0]))
+        force_coords = (fe, fn) if rnd.random() < 0.5 else (fe.ravel(), fn.ravel())
+        nforce = fe.size
+    engine = rnd.choice(["auto", "auto", "numpy"])
+    opts = {"force_coords": force_coords, "engine": engine}
+
+    def new_cv(**extra):
+        return vd.SplineCV(mindists=mindists, dampings=dampings, cv=cvf(), scoring=scoring, **opts, **extra)
+
     with warnings.catch_warnings():
         warnings.simplefilter("ignore")
-        serial = vd.SplineCV(mindists=mindists, dampings=dampings, cv=cvf(), scoring=scoring).fit(coords, data, weights)
+        serial = new_cv().fit(coords, data, weights)
         if client:
             # the (deprecated) client= path must rank by the requested metric and choose like the serial path
-            scv = vd.SplineCV(mindists=mindists, dampings=dampings, cv=cvf(), scoring=scoring, client=StandInClient()).fit(coords, data, weights)
+            scv = new_cv(client=StandInClient()).fit(coords, data, weights)
         else:
             scv = serial
         scores = [float(s) for s in scv.scores_]
         chosen = (float(scv.mindist_), float(scv.damping_))
-        pred_cv = scv.predict(q)
-        ref = vd.Spline(mindist=chosen[0], damping=chosen[1]).fit(coords, data, weights)
-        pred_ref = ref.predict(q)
+        # the reference: an independently built Spline with the winning parameters AND the same options, on all the data
+        ref = vd.Spline(mindist=chosen[0], damping=chosen[1], **opts).fit(coords, data, weights)
+        pred_ref = list(ref.predict(q)) + list(np.ravel(ref.force_))
+        pred_cv = list(scv.predict(q)) + list(np.ravel(scv.force_))
+
+        def final_ok(model):
+            "the final Spline object carries the requested options and the reported parameters"
+            p = model.spline_.get_params()
+            fc = p["force_coords"]
+            same_fc = (fc is None) if force_coords is None else (
+                fc is not None and len(fc) == len(force_coords) and all(np.array_equal(a, b) for a, b in zip(fc, force_coords)))
+            return bool(p["engine"] == engine and same_fc and p["mindist"] == model.mindist_ and p["damping"] == model.damping_)
+
+        # sizes of force_ and of each array of force_coords_; the last entry equals nforce iff force_coords_ has two arrays
+        nforce_obs = [int(np.size(scv.force_))] + [int(np.size(c)) for c in scv.force_coords_] + [len(scv.force_coords_) * nforce // 2]
+        params_ok = final_ok(scv)
         delayed_error = None
         try:
-            scd = vd.SplineCV(mindists=mindists, dampings=dampings, cv=cvf(), scoring=scoring, delayed=True).fit(coords, data, weights)
+            scd = new_cv(delayed=True).fit(coords, data, weights)
             others = [(float(scd.mindist_), float(scd.damping_))]
+            # the delayed variant must end with the same final model
+            pred_cv += list(scd.predict(q)) + list(np.ravel(scd.force_))
+            pred_ref += list(ref.predict(q)) + list(np.ravel(ref.force_))
+            params_ok = params_ok and final_ok(scd)
         except Exception as exc:  # a crash of the delayed path is a difference from the serial path
             others = [(-1.0, -1.0)]
             delayed_error = "%s: %s" % (type(exc).__name__, exc)
@@ -585,17 +619,20 @@ def splinecv_case(rnd, vd, kind):
         table = []
         import itertools
         for md, dm in itertools.product(mindists, dampings):
-            table.append([float(s) for s in vd.cross_val_score(vd.Spline(mindist=md, damping=dm), coords, data, weights, cv=cvf(), scoring=scoring)])
-    term = "c12_splinecv %s %s %s %s %s %s %s %s %s" % (
+            table.append([float(s) for s in vd.cross_val_score(vd.Spline(mindist=md, damping=dm, **opts), coords, data, weights, cv=cvf(), scoring=scoring)])
+    term = "c12_splinecv_full %s %s %s %s %s %s %s %s %s %s %s %s" % (
         cN(n), cDl(mindists), cDl(dampings), clist([cDl(t) for t in table]), cDl(scores), cpair(cD(chosen[0]), cD(chosen[1])),
-        cDl(pred_cv), cDl(pred_ref), clist([cpair(cD(a), cD(b)) for a, b in others]))
+        cDl(pred_cv), cDl(pred_ref), clist([cpair(cD(a), cD(b)) for a, b in others]), cN(nforce), cNl(nforce_obs), cbool(params_ok))
     ties = len(set(scores)) < len(scores)
-    return Case({"mindists": mindists, "dampings": dampings, "scoring": scoring, "n": n, "weighted": weighted, "client": client, "data_seed": int(rs.randint(0, 2 ** 31 - 1))},
+    fdesc = None if fshape is None else {"grid": list(fshape), "given_as": "2-D" if np.ndim(force_coords[0]) == 2 else "1-D"}
+    return Case({"mindists": mindists, "dampings": dampings, "scoring": scoring, "n": n, "weighted": weighted, "client": client,
+                 "force_coords": fdesc, "engine": engine, "data_seed": int(rs.randint(0, 2 ** 31 - 1))},
                 {"scores_": scores, "mindist_": chosen[0], "damping_": chosen[1], "exact_ties": ties, "delayed_choice": others[0],
-                 "delayed_error": delayed_error}, term,
-                "# verde.SplineCV(mindists=%s, dampings=%s, scoring=%s%s) on %d random points; see harness/c12.py splinecv_case" % (
-                    mindists, dampings, scoring, ", client=StandInClient()" if client else "", n),
-                kind + (":ties" if ties else ""))
+                 "delayed_error": delayed_error, "n_forces_expected": nforce, "n_forces_observed": nforce_obs, "final_params_ok": params_ok}, term,
+                "# verde.SplineCV(mindists=%s, dampings=%s, scoring=%s, force_coords=%s, engine=%r%s) on %d random points; see harness/c12.py splinecv_case" % (
+                    mindists, dampings, scoring, "None" if fdesc is None else "%s grid of forces over (0.3, 5.7, -2.7, 2.7) given %s" % (fshape, fdesc["given_as"]),
+                    engine, ", client=StandInClient()" if client else "", n),
+                kind + ("+forces" if fshape else "") + (":ties" if ties else ""))
 
 
 def generate(tier, seed):
@@ -618,6 +655,8 @@ def generate(tier, seed):
             cases.append(splinecv_case(rnd, vd, k))
     for i in range(8 * m):
         cases.append(splinecv_case(rnd, vd, "splinecv-client"))
+    for i in range(8 * m):
+        cases.append(splinecv_case(rnd, vd, "splinecv-options"))
     return cases
 
 
